@@ -25,7 +25,7 @@ RULE = (
     "histories mat-set . enc(other)-sequence . roundtrip(fmt, via): mat-set = every subset of size <= k of 14 derived quantities and the full set; "
     "enc-sequence = every sequence of length <= j over {big grid with edges, small grid, the grid under test itself} x {ugrid, exodus, scrip}; fmt in {ugrid, exodus, scrip}; "
     "via in {dataset, NetCDF file}; on grids {mixed 3..6-gon patch, cube, cube with split face (3/4 mix), one face of every size 3..8, antimeridian strip, "
-    "xyz-bearing source (unit sphere), xyz-bearing source in kilometres, grid read from an MPAS source (metres, supplied edges/centres/areas)}. non-trivial = mixed-size grid or non-empty prefix; distinct = (grid, mat-set, enc-sequence, fmt, via)"
+    "polar cap with nodes 0.2 and 1 degree from the pole, xyz-bearing source (unit sphere), xyz-bearing source in kilometres, grid read from an MPAS source (metres, supplied edges/centres/areas)}. non-trivial = mixed-size grid or non-empty prefix; distinct = (grid, mat-set, enc-sequence, fmt, via)"
 )
 ASSUMPTIONS = [
     "faces are compared by corner position (1e-9 chord), cyclic order up to rotation; same face order for UGRID and SCRIP, multiset for Exodus",
@@ -33,8 +33,8 @@ ASSUMPTIONS = [
     "Exodus date/time variables are not compared; NetCDF files are written to a private temporary directory",
 ]
 BOUNDS = {
-    "quick": "k<=1 (+full set), j<=1, 8 grids, both vias",
-    "thorough": "k<=2 (+full set), j<=2, 8 grids, both vias",
+    "quick": "k<=1 (+full set), j<=1, 9 grids, both vias",
+    "thorough": "k<=2 (+full set), j<=2, 9 grids, both vias",
 }
 MATS = [
     "edge_node_connectivity", "face_edge_connectivity", "edge_face_connectivity", "node_face_connectivity", "face_face_connectivity",
@@ -42,7 +42,7 @@ MATS = [
     "antimeridian_face_indices",
 ]
 FMTS = ["ugrid", "exodus", "scrip"]
-GRIDS = ["mixedpatch", "cube", "cubesplit", "sizes38", "amstrip", "xyz:prism", "xyzkm:cubesplit", "mpas:mixedpatch"]
+GRIDS = ["mixedpatch", "cube", "cubesplit", "sizes38", "amstrip", "xyz:prism", "xyzkm:cubesplit", "mpas:mixedpatch", "polarcap2"]
 OTHERS = ["big", "small", "self"]
 
 
